@@ -1,7 +1,7 @@
 """C17 — the binary decoder stays in bounds; IPP requests decode to what was encoded.
 Spec: Decoder.tla (+ MC_Decoder), Ipp.tla."""
-import json, os
-import lib
+import json, os, struct
+import lib, protocols as P
 
 PROP = "C17"
 
@@ -51,9 +51,114 @@ def decoder_part(ck, tier, lab):
     return c.get("transitions", 0), c.get("sequences", 0)
 
 
+def ipp_encode(req):
+    """the harness's own IPP encoder (RFC 8010 layout)"""
+    def val(vt, v):
+        if vt in (33, 35):
+            return struct.pack(">i", int(v))
+        if vt == 51:
+            return struct.pack(">ii", int(v), int(v) + 10)
+        if vt == 34:
+            return b"\x01" if v == "true" else b"\x00"
+        return v.encode()
+    out = struct.pack(">BBhi", req["major"], req["minor"], req["op"] if req["op"] < 32768 else req["op"] - 65536, req["id"])
+    for g in req["groups"]:
+        out += bytes([g["tag"]])
+        for a in g["attrs"]:
+            for k, v in enumerate(a["vals"]):
+                name = a["name"].encode() if k == 0 else b""
+                b = val(a["vt"], v)
+                out += bytes([a["vt"]]) + struct.pack(">H", len(name)) + name + struct.pack(">H", len(b)) + b
+    doc = bytes((ord('D') + i % 20) for i in range(req["doc"]))
+    return out + b"\x03" + doc, doc
+
+
+def ipp_decode_reply(body):
+    """-> dict(major, minor, status, id, charset, language) from the reply's first (operation attributes) group"""
+    if len(body) < 8:
+        return None
+    major, minor, status, rid = struct.unpack(">BBhi", body[:8])
+    out = {"major": major, "minor": minor, "status": status, "id": rid, "charset": "", "language": ""}
+    i = 8
+    if i < len(body) and body[i] == 1:
+        i += 1
+        while i < len(body) and body[i] > 0x0f:
+            vt = body[i]
+            nl = struct.unpack(">H", body[i + 1:i + 3])[0]
+            name = body[i + 3:i + 3 + nl].decode("latin1")
+            j = i + 3 + nl
+            vl = struct.unpack(">H", body[j:j + 2])[0]
+            v = body[j + 2:j + 2 + vl].decode("latin1")
+            if name == "attributes-charset":
+                out["charset"] = v
+            if name == "attributes-natural-language":
+                out["language"] = v
+            i = j + 2 + vl
+    return out
+
+
+def ipp_part(ck, tier, lab):
+    n = 150 if tier == "quick" else 3000
+    r = lib.tlc("MC_Ipp", timeout=300, constants={"NReq": str(n)}, tlc_seed=lib.seed(), workers=4)
+    lib.tlc_must_pass(r, "Ipp request generator")
+    ck.add_tlc(r, "Ipp: %d requests drawn from the structural generator (5 operations, 1..2 groups, 0..7 attributes of every supported value tag with 1..3 values, documents to 64 KiB)" % n)
+    scs, meta = [], {}
+    for k, s in enumerate(r.scn):
+        body, doc = ipp_encode(s["req"])
+        ip = "10.17.%d.%d" % (k // 250, 1 + k % 250)
+        data = P.http_post("/printers/x", body, "application/ipp") + body
+        scs.append({"id": k, "steps": [{"op": "open", "c": "c", "laddr": "127.0.0.1:631", "raddr": "%s:6310" % ip},
+                                       {"op": "send", "c": "c", "hex": data.hex()},
+                                       {"op": "recv", "c": "c", "until": "eof", "timeout_ms": 3000},
+                                       {"op": "events", "wait_ms": 30}]})
+        meta[k] = (s, ip, doc)
+    cfg = os.path.join(lib.scratch(), "c17-ipp.toml")
+    open(cfg, "w").write(P.cfg_all(["ipp"]))
+    results = lib.run_sharded(lab, "script", scs, shards=2, extra_args=["-config", cfg, "-par", "16"], timeout=1200)
+    for res in results:
+        s, ip, doc = meta[res["id"]]
+        req = s["req"]
+        desc = "op %#x id %d, operation attributes %s%s, document %d bytes" % (
+            req["op"], req["id"], [(a["name"], "%#x" % a["vt"], a["vals"]) for a in req["groups"][0]["attrs"]],
+            (" + job group %s" % [(a["name"], "%#x" % a["vt"], len(a["vals"])) for a in req["groups"][1]["attrs"]]) if len(req["groups"]) > 1 else "", req["doc"])
+        rp = {"ipp": req}
+        raw = b"".join(bytes.fromhex(ob.get("hex", "")) for ob in res["obs"] if ob["op"] == "recv")
+        evs = [e for ob in res["obs"] if ob["op"] == "events" for e in (ob.get("events") or []) if e.get("source-ip") == ip]
+        body = raw.split(b"\r\n\r\n", 1)[1] if b"\r\n\r\n" in raw else b""
+        rep = ipp_decode_reply(body)
+        if rep is None:
+            fatal = [e for e in evs if e.get("type") == "fatal"]
+            ck.disagree("ipp/no-reply", "%s: no IPP reply (%s)" % (desc, ("handler panicked: " + str(fatal[0].get("message"))[:120]) if fatal else "connection closed"), rp)
+            continue
+        exp = s["response"]
+        diffs = [k for k in ("major", "minor", "status", "id", "charset", "language") if rep[k] != exp[k]]
+        if diffs:
+            ck.disagree("ipp/reply-%s" % diffs[0], "%s: reply %s, specification %s" % (desc, rep, exp), rp)
+            continue
+        ev = next((e for e in evs if e.get("category") == "ipp"), None)
+        if ev is None:
+            ck.disagree("ipp/no-event", "%s: no ipp event" % desc, rp)
+            continue
+        if req["op"] == 2:
+            want = s["event"]
+            got = {"uri": ev.get("ipp.uri"), "user": ev.get("ipp.user"), "jobname": ev.get("ipp.job-name")}
+            for k in ("uri", "user", "jobname"):
+                if got[k] != want[k]:
+                    ck.disagree("ipp/event-%s" % k, "%s: event carries %s=%r, request had %r" % (desc, k, got[k], want[k]), rp)
+                    break
+            else:
+                if (ev.get("ipp.data") or "").encode("latin1", "replace") != doc:
+                    ck.disagree("ipp/event-document", "%s: event document has %d bytes" % (desc, len(ev.get("ipp.data") or "")), rp)
+    ck.cov["ipp_requests"] = len(scs)
+    ck.sample(r.scn[0])
+    return len(scs)
+
+
 def run(tier, lab):
     ck = lib.Check(PROP, tier, "model_checking")
     nt, ns = decoder_part(ck, tier, lab)
+    nipp = ipp_part(ck, tier, lab)
+    ck.cov["traces_validated_against_impl"] += nipp
     ck.cov.update({
         "evaluations": nt + ns,
         "distinct_nontrivial": nt,
